@@ -64,6 +64,9 @@ def shards(tier, seed):
     out.append({"part": "conf_analysis", "seed": seed})
     for mode, order, force, backend in itertools.product(("auto", "cross"), (0, 2), (False, True), ("numba", "numpy")):
         out.append({"part": "hist", "mode": mode, "order": order, "force": force, "backend": backend, "depth": 4 if tier == "quick" else 5, "seed": seed})
+        if not force and order == 0 and backend == "numba":  # other record length / scheduler: more half-sample ties in the starts
+            for N2, sch2 in ((97, "ltf"), (131, "lpsd"), (97, "vectorized_ltf")):
+                out.append({"part": "hist", "mode": mode, "order": order, "force": force, "backend": backend, "depth": 3, "seed": seed, "N": N2, "sched": sch2})
         if not force:  # the same search without state merging (every history its own state), to a smaller depth
             out.append({"part": "hist", "mode": mode, "order": order, "force": force, "backend": backend, "depth": 3 if tier == "quick" else 4, "seed": seed, "nomerge": True})
     from checks.c20 import RESULTS
@@ -336,9 +339,9 @@ def _conf_analysis(shard):
 
 # ---------------------------------------------------------------------------
 def _analyzer_factory(shard):
-    N, fs = 96, 3.0
+    N, fs = shard.get("N", 96), 3.0
     x, y = ana.data_for(shard["mode"], N, "id1", "id2", shard["seed"])
-    kw = dict(olap=0.5, Kdes=4, order=shard["order"], scheduler="ltf", backend=shard["backend"], win="hann")
+    kw = dict(olap=0.5, Kdes=4, order=shard["order"], scheduler=shard.get("sched", "ltf"), backend=shard["backend"], win="hann")
     if shard["force"]:
         kw.update(Jdes=100, force_target_nf=True, Lmin=1)
         N = 400
@@ -366,8 +369,17 @@ def _hist_ops(make):
     an = make()
     p = an.plan()
     ja, jb = 1, len(p["f"]) - 2
-    return [("plan",), ("compute",), ("single_L", float(p["f"][ja]), int(p["L"][ja])), ("single_fres", float(p["f"][jb]), float(p["r"][jb])),
-            ("compute_touch",)]
+    ops = [("plan",), ("compute",), ("single_L", float(p["f"][ja]), int(p["L"][ja])), ("single_fres", float(p["f"][jb]), float(p["r"][jb])),
+           ("compute_touch",)]
+    # a bin of the plan whose ideal start positions contain an exact half sample (odd number of segments, odd N-L): the full and
+    # the single-bin path must still give the numbers a fresh analyzer gives, in any call order
+    N = an.nx
+    for j in range(len(p["f"])):
+        K, L = int(p["K"][j]), int(p["L"][j])
+        if K >= 3 and K % 2 == 1 and (N - L) % 2 == 1 and j not in (ja, jb):
+            ops.append(("single_L", float(p["f"][j]), L))
+            break
+    return ops
 
 
 def _apply_an(an, op):
@@ -432,7 +444,7 @@ def _hist(shard):
         return res
 
     ex = histories.Explorer(make, apply, enabled, canon, invariant).run()
-    fails = [fw.fail(k, m, dict(shard, part="hist1", hist=[list(o) for o in hh])) for k, m, hh in ex.failures]
+    fails = [fw.fail(k, m, dict(shard, part="hist1", hist=[list(o) for o in hh])) for k, m, hh, *_ in ex.failures]
     return {"evals": ex.transitions, "nontrivial": ex.transitions, "failures": fails,
             "samples": [{"analyzer": {k: shard[k] for k in ("mode", "order", "force", "backend")}, "history": h} for h in ex.samples[:1]],
             "extra": {"states": ex.states, "transitions": ex.transitions, "traces_validated_against_impl": ex.replayed, "max_depth": ex.max_depth,
